@@ -196,10 +196,26 @@ func runProperty(p *Program, id string, cfg *PropCfg, timeout int) *checkResult 
 		if j.Err != "" {
 			res.structural = append(res.structural, &Obligation{Name: j.Name + "#unsupported", Kind: "unsupported", Status: "failed", Note: j.Err, Job: j.Name})
 		}
+		groups := map[string][2]int{}
 		for _, o := range j.Obls {
+			if o.Kind == "pre-sat" && o.Group != "" {
+				g := groups[o.Group]
+				g[0]++
+				if o.Status == "proved" {
+					g[1]++
+				}
+				groups[o.Group] = g
+				continue
+			}
 			if o.Kind == "pre-sat" && o.Status == "proved" {
 				res.structural = append(res.structural, &Obligation{Name: j.Name + "#vacuous-precondition", Kind: "vacuity", Status: "failed",
 					Note: "the function's precondition (with type invariants) is unsatisfiable or undecided: " + o.Status, Job: j.Name})
+			}
+		}
+		for g, n := range groups {
+			if n[0] > 0 && n[0] == n[1] {
+				res.structural = append(res.structural, &Obligation{Name: j.Name + "#vacuous(" + g + ")", Kind: "vacuity", Status: "failed",
+					Note: "the assumptions are contradictory on every path that reaches this point (" + g + "): obligations there hold vacuously", Job: j.Name})
 			}
 		}
 		// every clause of the contract must have produced something
